@@ -1,21 +1,37 @@
 """C15 — the fitness cache can be shared by threads.
 
-Lean: Vita/C15/{Model,Lemmas,Exec,Props}.lean — the lock protocol of vita::cache as a transition
-system (std::shared_mutex by its specification, any number of threads, L-word values);
-`lookup_returns_stored` for every interleaving; witnesses for the reference-returning find.
-Tie (a): deterministic schedule replay — harness/c15_sched.cc runs real threads in lock-step at the
-guarded hook points inside cache::find/insert/clear and prints the trace; the Lean driver checks
-every observed transition and every lookup result against the model.
-Tie (b): harness/c15_stress.cc under ThreadSanitizer and under ASan/UBSan (free-running threads,
-values that encode their key).  Data-race freedom of the compiled C++ is carried by (a)+(b): partial.
+Lean: Vita/C15/{Model,Lemmas,Inv,Exec,Locks,Gen,Props}.lean — vita::cache under threads as a transition
+system (multi-slot table, seal with wrap-around, L-word values copied word by word, find / insert /
+clear / clear(key) / save / load / evaluator_proxy::operator(), any number of threads, std::shared_mutex
+by its specification, the lock DISCIPLINE a parameter); mutual exclusion, `lookup_returns_stored`,
+`proxy_returns_stored`, `save_returns_stored`, linearizability w.r.t. the sequential cache for every
+interleaving and every `ok` discipline; witnesses for the broken disciplines.
+Tie (0): tools/translate_cache_locks.py extracts the discipline from the clang AST of cache.cc into
+Gen.lean; obligation `by decide`: every write under the exclusive lock, every read under at least the
+shared lock, nothing escapes.
+Tie (a): harness/c15_sched.cc — real threads in lock-step at the guarded hook points and at points
+inside the streams handed to load/save: systematic enumeration (bounded preemptions) of small
+configurations + random schedules with blocking probes; the Lean driver checks every observed transition
+and every lookup / proxy / save result against the model.
+Tie (b): harness/c15_stress.cc under ThreadSanitizer and ASan/UBSan (free-running threads, six shapes).
+Data-race freedom of the compiled C++ is carried by (0)+(a)+(b): partial.
 """
 import glob
 import hashlib
 import json
 import os
 import re
+import sys
 
 from vlib import common as C
+
+sys.path.insert(0, os.path.join(C.ROOT, "tools"))
+import translate_cache_locks as T  # noqa: E402
+from cxx2lean import Refuse  # noqa: E402
+
+GEN = os.path.join(C.LEAN, "Vita", "C15", "Gen.lean")
+OPS = ["find", "insert", "clear", "clearKey", "save", "load"]
+CPP = {"find": "find", "insert": "insert", "clear": "clear()", "clearKey": "clear(key)", "save": "save", "load": "load"}
 
 
 def sanitizer_summary(se):
@@ -29,16 +45,87 @@ def sanitizer_summary(se):
     return head, seen[:6]
 
 
+def eff(e, mutex_shared):
+    """the lock that protects all the accesses of a function: N / S / X, U = a lock that is not the
+    table's mutex (mirror of FnInfo.eff in Locks.lean, with U for `otherExpr`)"""
+    if e is None or e["guard"] is None:
+        return "N"
+    cls, frm = e["guard"]
+    if not frm:
+        return "U"
+    if not all(i or x for (_, _, i, x) in e["accesses"]):
+        return "U"        # some accesses are unprotected, but the function does queue on the lock somewhere
+    return "S" if (cls == "sharedLock" and mutex_shared) else "X"
+
+
+def discipline(tr):
+    """(7-character code for the harness, list of human-readable defects of the discipline)"""
+    by = {e["fn"]: e for e in tr["fns"]}
+    code, why = "", []
+    for op in OPS:
+        e = by.get(op)
+        k = eff(e, tr["mutex_shared"])
+        code += k
+        if op == "find":
+            code += "1" if (e is not None and e["escapes"]) else "0"
+        if e is None:
+            why.append("cache::%s is not there any more" % CPP[op])
+            continue
+        rel = [(f, w, i) for (f, w, i, x) in e["accesses"] if not x]
+        writes = any(w for _, w, _ in rel)
+        outside = sorted({f for f, _, i in rel if not i})
+        if e["guard"] is None and rel:
+            why.append("cache::%s takes no lock" % CPP[op])
+        elif e["guard"] is not None and not e["guard"][1]:
+            why.append("cache::%s locks something that is not `mutex_`" % CPP[op])
+        elif outside:
+            why.append("cache::%s touches %s outside the scope of its lock" % (CPP[op], ", ".join(outside)))
+        elif writes and k != "X":
+            why.append("cache::%s writes %s under a shared lock" %
+                       (CPP[op], ", ".join(sorted({f for f, w, _ in rel if w}))))
+        if e["escapes"]:
+            why.append("cache::%s returns a reference / pointer into the table" % CPP[op])
+    for e in tr["fns"]:
+        if e["fn"] == "other" and any(not x for (_, _, _, x) in e["accesses"]):
+            why.append("cache::%s touches the table but is not an operation of the model" % e["name"])
+    return code, why
+
+
 def run(chk, replay=None):
     broken = []
+    quick = chk.tier == "quick"
+
+    # ---- (0) the lock discipline of the current cache.cc --------------------------------------------
+    disc, seal_atomic, tr = "U0UUUUU", False, None
+    try:
+        tr = T.emit(GEN)
+        disc, why = discipline(tr)
+        seal_atomic = bool(tr["fields"].get("seal_", {}).get("atomic"))
+        chk.cov["lock_discipline"] = {"code": disc, "mutex": tr["mutex_type"],
+                                      "functions": {e["name"] + "/" + str(e["nparams"]): {
+                                          "guard": e["guard"], "escapes": e["escapes"],
+                                          "accesses": ["%s:%s%s" % (f, "w" if w else "r", "" if i else ":outside")
+                                                       for (f, w, i, x) in e["accesses"]]} for e in tr["fns"]}}
+        chk.count("translated-functions", len(tr["fns"]))
+        chk.count("translated-accesses", sum(len(e["accesses"]) for e in tr["fns"]))
+        if why:
+            broken.append("the lock discipline extracted from cache.cc breaks the obligation `every write under the "
+                          "exclusive lock, every read under at least the shared lock, nothing escapes` "
+                          "(Vita.C15.Gen.all_disciplined / disc_ok): " + "; ".join(why))
+    except Refuse as e:
+        broken.append("tools/translate_cache_locks.py refuses the current cache.cc: %s" % e)
+        C.sh(["git", "checkout", "--", GEN], cwd=C.ROOT)
+    weak = bool(broken)
+
     ok, msg = chk.prove("Vita.C15.Props", ["Vita.C15.Props", "c15_driver"])
     if not ok:
-        broken.append("theorems of Vita.C15.Props no longer check: " + msg)
+        if not weak or "Gen.lean" not in msg:
+            broken.append("theorems of Vita.C15.Props no longer check: " + msg)
         ok2, _ = C.lake_build(["c15_driver"])
     drv_ok = ok or ok2
 
-    quick = chk.tier == "quick"
-    sched_args = [chk.seed, 70 if quick else 700, 110 if quick else 1200]
+    # cap per configuration, random configurations, random schedules, probes, preemption bound
+    sched_args = [chk.seed] + ([150, 6, 24, 60] if quick else [1000, 16, 250, 600]) + [disc, int(seal_atomic), 2 if quick else 3]
     if replay:
         r = json.load(open(replay))["replay"]
         if "sched_args" in r:
@@ -47,7 +134,7 @@ def run(chk, replay=None):
     # ---- corpus: recorded traces the model must accept (the reference-variant witness included) ----
     if drv_ok:
         for f in sorted(glob.glob(os.path.join(C.ROOT, "corpus", "C15", "*.trace"))):
-            ls = [l.rstrip("\n") for l in open(f) if l.strip() and not l.startswith("#")]
+            ls = [l.rstrip("\n").split(" | ")[0] for l in open(f) if l.strip() and not l.startswith("#")]
             ans = C.run_driver("c15_driver", ls)
             chk.count("corpus-traces")
             if any(x != "ok" for x in ans):
@@ -55,69 +142,105 @@ def run(chk, replay=None):
                 broken.append("the model no longer accepts the recorded trace %s at `%s`: %s" %
                               (os.path.basename(f), ls[j], ans[j]))
 
-    # ---- (a) schedule replay ---------------------------------------------
+    # ---- (a) schedules on the real code ---------------------------------------------------------------
     exe = C.build_harness("c15_sched", "asan")
-    rc, so, se = C.run_harness(exe, sched_args, timeout=3000)
+    rc, so, se = C.run_harness(exe, sched_args, timeout=6000)
     trace = so.splitlines()
     if rc != 0:
         head, frames = sanitizer_summary(se)
-        last = [l for l in trace if l.startswith("init")]
-        chk.violation("schedule-replay harness died (rc=%d): %s in %s\n%s" % (rc, head, frames, se[-1500:]),
-                      {"sched_args": sched_args, "trace_tail": trace[-40:], "stderr": se[-3000:]},
-                      tags={"kind": "replay-crash", "where": " ".join(frames)})
+        starts0 = [i for i, l in enumerate(trace) if l.startswith("init")]
+        last = trace[starts0[-1]:] if starts0 else trace[-40:]
+        chk.violation("schedule harness died (rc=%d): %s in %s\nthe schedule it was running:\n%s\n%s" %
+                      (rc, head, frames, "\n".join(last[-60:]), se[-1500:]),
+                      {"sched_args": sched_args, "schedule": last[-80:], "stderr": se[-3000:]},
+                      tags={"kind": "replay-crash", "where": " ".join(frames), "step": "crash"})
     model_lines, idx = [], []
     for i, l in enumerate(trace):
-        if l.startswith("single") or l.startswith("stuck"):
+        if l.startswith("#") or l.startswith("single") or l.startswith("stuck") or not l.strip():
             continue
         model_lines.append(l.split(" | ")[0])
         idx.append(i)
     lean = C.run_driver("c15_driver", model_lines) if (drv_ok and model_lines) else None
-
-    # split into schedules
-    starts = [i for i, l in enumerate(trace) if l.startswith("init")] + [len(trace)]
     lean_at = {}
     if lean is not None:
         for j, i in enumerate(idx):
             if j < len(lean):
                 lean_at[i] = lean[j]
-    nrej = 0
+
+    starts = [i for i, l in enumerate(trace) if l.startswith("init")] + [len(trace)]
+    nrej = n_tie = 0
+    found = []            # (priority, what, replay, tags): a returned value that is wrong comes first
+    phase = "systematic"
     for si in range(len(starts) - 1):
         a, b = starts[si], starts[si + 1]
         sch = trace[a:b]
+        head = trace[a - 1] if a > 0 and trace[a - 1].startswith("#") else ""
+        if head.startswith("# random"):
+            phase = "random"
+        chk.count("schedules:" + phase)
         h = hashlib.blake2b(digest_size=8)
-        nontrivial = False
         for off, l in enumerate(sch):
             i = a + off
+            if l.startswith("#"):
+                if "discipline-mismatch" in l:
+                    chk.count("discipline-mismatch")
+                continue
             h.update(l.encode())
             t = l.split()
             chk.count("step:" + t[0])
             if "= blocked" in l:
-                chk.count("probe:blocked"); nontrivial = True
+                chk.count("probe:blocked")
             if " woke " in l:
                 chk.count("wake")
-            if t[0] == "rcopy":
+            if " | ovl " in l:
+                chk.count("overlap:" + l.split(" | ovl ")[1].split()[0])
+            if t[0] in ("rcopy", "pret"):
                 chk.count("lookup:" + ("none" if "r none" in l else "hit"))
                 chk.seen(h.hexdigest())
-                nontrivial = nontrivial or "r none" not in l
+            if t[0] == "sres":
+                chk.count("saved-entries", max(0, len(l.split(" | ")[0].split()) - 4))
+                chk.seen(h.hexdigest())
             if t[0] == "init":
                 chk.count("L:%s" % t[1]); chk.count("threads:%s" % t[2])
             bad = " BAD " in l
             rej = lean_at.get(i, "").startswith("REJECT")
-            if bad or rej:
-                why = l.split(" BAD ")[1] if bad else lean_at[i][7:]
-                kind = why.split()[0]
-                if rej and not bad:
-                    nrej += 1
-                what = ("on the real cache, schedule %d (seed %s), step `%s`: %s" % (si, sched_args[0], l, why))
-                if rej:
-                    what += " [model: %s]" % lean_at[i]
-                if chk.violation(what, {"sched_args": sched_args, "schedule": sch[:off + 1],
-                                        "model": [lean_at.get(a + o, "") for o in range(off + 1)]},
-                                 tags={"kind": kind, "step": t[0]}):
-                    pass
+            if not (bad or rej):
+                continue
+            why = l.split(" BAD ")[1] if bad else lean_at[i][7:]
+            kind = why.split()[0]
+            what = "on the real cache, %s (seed %s), step `%s`: %s" % (head[2:] or "schedule %d" % si, sched_args[0], l, why)
+            if rej:
+                what += " [model: %s]" % lean_at[i]
+            rep = {"sched_args": sched_args, "configuration": head, "schedule": sch[:off + 1],
+                   "model": [lean_at.get(a + o, "") for o in range(off + 1)]}
+            if rej and not bad:
+                nrej += 1
+            overlap_only = (not bad) and kind == "lock-acquired-although-the-specification-forbids-it"
+            if kind == "blocked-although-the-extracted-discipline-lets-it-in" or (overlap_only and " | ovl 1" not in l):
+                # the lock differs from what was extracted / from the model's single readers-writer lock, but the
+                # critical sections that overlapped do not touch the same memory: not a failing input
+                n_tie += 1
+                if n_tie == 1:
+                    broken.append("the real lock does not behave like the modelled one: " + what)
+                if overlap_only:
+                    continue          # the model is lost for this schedule; the harness oracle still judges the values
                 break
-        if si % 17 == 0:
-            chk.sample({"schedule": sch[:40]})
+            if overlap_only:
+                # keep looking in this schedule: a wrong VALUE later on is the stronger evidence
+                later = next((x for x in sch[off + 1:] if " BAD " in x), None)
+                if later is not None:
+                    continue
+                found.append((2, what + "  — two threads are inside critical sections that touch the same slot / the "
+                              "seal, at least one of them writing: a data race", rep,
+                              {"kind": "conflicting-critical-sections-overlap", "step": t[0]}))
+                break
+            found.append((0 if bad else 1, what, rep, {"kind": kind, "step": t[0]}))
+            break
+        if si % 97 == 0:
+            chk.sample({"configuration": head, "schedule": [x for x in sch if not x.startswith("#")][:40]})
+    found.sort(key=lambda x: x[0])
+    for _, what, rep, tags in found[:40]:
+        chk.violation(what, rep, tags=tags)
     for l in trace:
         if l.startswith("single"):
             chk.count("single-thread-witness")
@@ -125,31 +248,45 @@ def run(chk, replay=None):
                 chk.violation("on the real cache: `const auto &r = c.find(k1); c.insert(k2, v2);` and r now reads %s "
                               "(find hands out a reference that outlives the lock)" % l.split(" = ")[1],
                               {"sched_args": sched_args, "line": l}, tags={"kind": "reference-outlives-lock", "step": "single"})
+        m = re.match(r"# explored config (\d+) \((.*)\) schedules=(\d+) complete=(\d)(.*)", l)
+        if m:
+            chk.count("configs:" + ("complete" if m.group(4) == "1" else "truncated-at-cap"))
+            if "nondeterministic" in m.group(5):
+                chk.count("configs:nondeterministic-replay")
     chk.cov["schedules"] = len(starts) - 1
+    chk.cov["schedules_systematic"] = chk.cov["input_distribution"].get("schedules:systematic", 0)
+    chk.cov["schedules_random"] = chk.cov["input_distribution"].get("schedules:random", 0)
     chk.cov["model_rejections_without_oracle_alarm"] = nrej
     if lean is not None and any(x == "bad-op" for x in lean):
         broken.append("the model driver does not understand a line of the trace: " +
                       next(model_lines[j] for j, x in enumerate(lean) if x == "bad-op"))
 
-    # ---- (b) stress under TSan and ASan -----------------------------------
+    # ---- (b) stress under TSan and ASan --------------------------------------------------------------
     if not replay:
-        runs = [("tsan", [chk.seed, 2500 if quick else 150000, 3, 2, 1]),
-                ("tsan", [chk.seed + 100, 1500 if quick else 90000, 2, 4, 2]),
-                ("asan", [chk.seed, 2500 if quick else 120000, 4, 3, 1])]
+        u = 1 if quick else 40
+        s = chk.seed
+        #        cfg     seed     ms        readers writers clearers savers loaders proxies varlen
+        runs = [("tsan", [s, 2000 * u, 3, 2, 1]),
+                ("tsan", [s + 100, 1500 * u, 2, 4, 2, 1, 0, 0, 1]),           # heap fitness of changing length
+                ("tsan", [s + 200, 2000 * u, 8, 1, 1, 0, 1, 0, 0]),           # many readers + clearer + wrapping loads
+                ("tsan", [s + 300, 1500 * u, 0, 0, 1, 1, 1, 4, 1]),           # evaluator_proxy
+                ("asan", [s, 2000 * u, 4, 3, 1, 1, 1, 0, 1]),
+                ("asan", [s + 400, 1500 * u, 0, 0, 1, 1, 1, 4, 0])]
         for cfg, args in runs:
             sx = C.build_harness("c15_stress", cfg)
             rc, so, se = C.run_harness(sx, args, timeout=3000)
-            m = re.search(r"stress finds=(\d+) hits=(\d+) inserts=(\d+) clears=(\d+) clearkeys=(\d+) bad=(\d+)(.*)", so)
+            m = re.search(r"stress (.*?) bad=(\d+)(.*)", so)
             if m:
-                for k, v in zip(("finds", "hits", "inserts", "clears", "clearkeys"), m.groups()):
+                for kv in m.group(1).split():
+                    k, v = kv.split("=")
                     chk.count("stress-%s:%s" % (cfg, k), int(v))
             chk.count("stress-runs:" + cfg)
             if rc != 0:
-                if m and int(m.group(6)) > 0:
-                    chk.violation("stress (%s, args %s): a lookup returned an illegal value: %s" % (cfg, args, m.group(7)),
+                if m and int(m.group(2)) > 0:
+                    first = m.group(3).strip()
+                    chk.violation("stress (%s, args %s): a lookup returned an illegal value: %s" % (cfg, args, first),
                                   {"stress": cfg, "args": args, "out": so.strip()},
-                                  tags={"kind": m.group(7).split("=")[1].split()[0] if "=" in m.group(7) else "oracle",
-                                        "step": "stress"})
+                                  tags={"kind": first.split("=")[1].split()[0] if "=" in first else "oracle", "step": "stress"})
                 else:
                     head, frames = sanitizer_summary(se)
                     chk.violation("stress (%s, args %s): %s; frames: %s\n%s" % (cfg, args, head, frames, se[:2500]),
@@ -158,21 +295,29 @@ def run(chk, replay=None):
 
     if broken and not [v for v in chk.violations if not v[2]]:
         for b in broken:
-            chk.violation(b, {"broken": b, "searched": "%d schedules replayed on real threads + TSan/ASan stress: no lookup "
-                              "returned an illegal value, no sanitizer report" % (len(starts) - 1)}, no_input=True)
+            chk.violation(b, {"broken": b, "searched": "%d schedules on real threads (%d enumerated systematically) + "
+                              "TSan/ASan stress: no lookup returned an illegal value, no conflicting critical sections "
+                              "overlapped, no sanitizer report" %
+                              (len(starts) - 1, chk.cov["schedules_systematic"])}, no_input=True)
     elif broken:
         chk.notes += broken
     chk.assumptions += ["std::shared_mutex is a correct readers-writer lock (modelled by its specification)",
-                        "data-race freedom of the compiled code is not proved: it is sampled by schedule replay at hook "
-                        "granularity and by ThreadSanitizer on free-running threads (partial)"]
+                        "data-race freedom of the compiled code is not proved: the lock discipline is extracted from the "
+                        "AST (lexical scopes of RAII lock objects) and the accesses are sampled by schedule enumeration "
+                        "at hook granularity and by ThreadSanitizer on free-running threads (partial)"]
     return chk.finish(
         level="proof",
-        checker_cmd="lake build Vita.C15.Props c15_driver && lake env lean <#print axioms for every theorem>",
-        rule="one evaluation = one lookup completed inside a replayed schedule (real threads in lock-step at the hook "
-             "points of cache::find/insert/clear; 2..5 threads, 1..3 keys sharing a slot, values of 1/2/3/5 words); "
-             "distinct = distinct trace prefixes; each is judged by the harness oracle (complete value stored under that "
-             "key) and every observed transition is checked against the Lean model; stress operation counts are listed "
-             "in input_distribution and not counted as evaluations",
+        checker_cmd="tools/translate_cache_locks.py > Gen.lean && lake build Vita.C15.Props c15_driver && "
+                    "lake env lean <#print axioms for every theorem>",
+        rule="one evaluation = one lookup / proxy call / save completed inside a schedule executed on real threads in "
+             "lock-step (hook points of cache::find/insert/clear, points inside the streams of load/save, the "
+             "evaluator of evaluator_proxy): systematic enumeration with bounded preemptions of 20 fixed + seeded "
+             "random configurations (2..4 threads, keys sharing and not sharing a slot, values of 1/2/3/5 words, "
+             "seal at UINT_MAX), then random schedules with blocking probes; distinct = distinct trace prefixes; each "
+             "is judged by the harness oracle (complete value stored under that key) and every observed transition is "
+             "checked against the Lean model; stress operation counts are listed in input_distribution and not counted "
+             "as evaluations",
         trusted=["Lean 4.33 kernel", "hand-written protocol model Vita/C15/Model.lean (validated by schedule replay)",
+                 "tools/translate_cache_locks.py + clang-14 AST (lock scopes / access classification)",
                  "std::shared_mutex specification", "harness/c15_sched.cc, harness/c15_stress.cc",
                  "g++ 12 ThreadSanitizer / ASan / UBSan"])
